@@ -907,6 +907,7 @@ SPECS["C05"]["theorems"] += [
     "Woodpile.Props.C05A.sink_is_wstep",
     "Woodpile.Props.C05A.defaults_are_wsteps",
     "Woodpile.Props.C05A.stable_consumer_is_wstep",
+    "Woodpile.Props.C05A.new_from_slices_arena_is_wrun",
     "Woodpile.Props.C05A.accessors_return_stable_slices",
     "Woodpile.Props.C05A.accessors_exposed_live",
 ]
